@@ -169,6 +169,17 @@ class LOC(dns.rdata.Rdata):
             )
         )
 
+    # The constructor calls these hprec and vprec; Rdata.replace() looks fields up by
+    # their constructor parameter names.
+
+    @property
+    def hprec(self) -> float:
+        return self.horizontal_precision
+
+    @property
+    def vprec(self) -> float:
+        return self.vertical_precision
+
     def to_styled_text(self, style: dns.rdata.RdataStyle):
         if self.latitude[4] > 0:
             lat_hemisphere = "N"
